@@ -151,9 +151,13 @@ def isEndOfStream(substrate):
         yield result
 
     else:
-        received = substrate.read(1)
-        if received is None:
-            yield
+        while True:
+            received = substrate.read(1)
+            if received is not None:
+                break
+
+            # non-blocking stream has nothing yet: that is not the end
+            yield error.SubstrateUnderrunError()
 
         if received:
             substrate.seek(-1, os.SEEK_CUR)
